@@ -34,8 +34,8 @@ type Config struct {
 	Liars        map[int]func(tick int) int64
 	WrapStore    func(idx int, s hg.Store) hg.Store
 	Maintenance  map[int]bool // nodes (re)started in maintenance mode
-	Solo         bool // only node 0 is started (DAG engine: one hashgraph fed by the harness)
-	BootstrapDir string // node 0 opens this existing Badger directory with Bootstrap=true
+	Solo         bool         // only node 0 is started (DAG engine: one hashgraph fed by the harness)
+	BootstrapDir string       // node 0 opens this existing Badger directory with Bootstrap=true
 }
 
 func (c Config) withDefaults() Config {
@@ -69,29 +69,29 @@ type EvRec struct {
 
 // SimNode is one participant.
 type SimNode struct {
-	Idx     int
-	Key     *ecdsa.PrivateKey
-	Pub     string
-	Peer    *peers.Peer
-	Conf    *config.Config
-	Node    *node.Node
-	App     *App
-	Store   hg.Store
-	Trans   *Transport
-	Silent  bool // neither initiates nor answers
-	Down    bool // crashed / not yet started
+	Idx       int
+	Key       *ecdsa.PrivateKey
+	Pub       string
+	Peer      *peers.Peer
+	Conf      *config.Config
+	Node      *node.Node
+	App       *App
+	Store     hg.Store
+	Trans     *Transport
+	Silent    bool // neither initiates nor answers
+	Down      bool // crashed / not yet started
 	Restarted bool // re-created from its store (pools were lost)
-	KeepDir bool // do not delete Dir on Close
-	Stalled int // insertion errors seen by this node after a fast-forward (documented limitation: ends the C13 obligation)
-	Ticks   int
-	FFStep  int // step of the last fast-forward (-1: full history)
-	Has     map[string]bool
-	known   map[uint32]int
-	Dir     string
-	pending []string // events seen since the last digest (for the insertion chain)
-	chain   [32]byte
-	Submits [][]byte // transactions accepted by this node (addTransaction returned)
-	Itxs    []hg.InternalTransaction
+	KeepDir   bool // do not delete Dir on Close
+	Stalled   int  // insertion errors seen by this node after a fast-forward (documented limitation: ends the C13 obligation)
+	Ticks     int
+	FFStep    int // step of the last fast-forward (-1: full history)
+	Has       map[string]bool
+	known     map[uint32]int
+	Dir       string
+	pending   []string // events seen since the last digest (for the insertion chain)
+	chain     [32]byte
+	Submits   [][]byte // transactions accepted by this node (addTransaction returned)
+	Itxs      []hg.InternalTransaction
 }
 
 // FullHistory is true for nodes that never reset from a frame.
@@ -314,11 +314,11 @@ type Transport struct {
 	owner int
 }
 
-func (t *Transport) Listen()                 {}
+func (t *Transport) Listen()                  {}
 func (t *Transport) Consumer() <-chan net.RPC { return make(chan net.RPC) }
-func (t *Transport) LocalAddr() string       { return addr(t.owner) }
-func (t *Transport) AdvertiseAddr() string   { return addr(t.owner) }
-func (t *Transport) Close() error            { return nil }
+func (t *Transport) LocalAddr() string        { return addr(t.owner) }
+func (t *Transport) AdvertiseAddr() string    { return addr(t.owner) }
+func (t *Transport) Close() error             { return nil }
 
 func (t *Transport) Sync(target string, args *net.SyncRequest, resp *net.SyncResponse) error {
 	out, err := t.c.deliver(t.owner, target, "sync", args)
